@@ -70,7 +70,9 @@ func newEnc(fam string, d, p int, opts string) (rs.Encoder, error) {
 		return nil, err
 	}
 	o := append(fo, parseOpts(opts)...)
-	return rs.New(d, p, o...)
+	enc, err := rs.New(d, p, o...)
+	scribbleCustom()
+	return enc, err
 }
 
 // symbolsPerByteLen: length of a shard that can hold d unit vectors for the family
